@@ -200,7 +200,7 @@ def run(rep):
         "evaluations": stats_all["edits"],
         "distinct_nontrivial": len(distinct),
         "rule": "seeded random edit histories (biased to deletes of middle ports, stale names, attach) + all "
-                "histories up to the stated depth over a 16-edit alphabet; non-trivial = accepted edit that "
+                "histories up to the stated depth over an 18-edit alphabet (incl. processors built from an already used domain and unused domains); non-trivial = accepted edit that "
                 "changed the dumped topology; distinct = distinct (state before, edit) pairs",
         "samples": samples or [{"note": "correspondence did not run"}],
         "traces_validated_against_impl": stats_all["histories"],
